@@ -52,7 +52,11 @@ class Unknown_Modifier_Exception(Modifier_Exception):
   pass
 
 def _is_vararg_signature(sig):
-  for p in sig.parameters.values():
+  params = list(sig.parameters.values())
+  if not params:
+    # a callable without parameters takes no arguments: it is not a varargs function
+    return False
+  for p in params:
     if not p.kind == Parameter.VAR_POSITIONAL:
       return False
   return True
